@@ -12,7 +12,8 @@ vars == <<S, J, nj>>
 
 Names == <<"Transfer", "Recv:final", "Recv:forward", "Recv:err", "Ack:ok", "Ack:err", "Ack:fwd-ok", "Ack:fwd-err",
            "Timeout:plain", "Timeout:giveup", "Timeout:retry", "Terminal:delivered", "Terminal:refunded",
-           "Refund:move", "Refund:burn", "Refund:mint", "Unwind:2", "Depth:3", "BadChannel">>
+           "Refund:move", "Refund:burn", "Refund:mint", "Unwind:2", "Depth:3", "BadChannel",
+           "Refund:move-voucher", "Refund:move-voucher-timeout", "Refund:move-voucher-onC", "Route:x", "Route:xb", "Forward:third-channel">>
 Idx(n) == CHOOSE i \in DOMAIN Names : Names[i] = n
 Wit(n) == IF TLCGet(Idx(n)) = 0 THEN TLCSet(Idx(n), 1) /\ PrintT(<<"WITNESS", n>>) ELSE TRUE
 WitIf(c, n) == IF c THEN Wit(n) ELSE TRUE
@@ -42,6 +43,19 @@ Witnesses(a, T) ==
              /\ ~HasPrefix(a.pkt.d, End(a.pkt.L, a.pkt.src)) /\ Sup(T, a.pkt.src, a.pkt.d) = Sup(S, a.pkt.src, a.pkt.d), "Refund:move")
     /\ WitIf(a.a \in {"Ack", "Timeout"} /\ Fwd(S, a.pkt) /\ Id(a.pkt) \in T.refd /\ T.inf \subseteq S.inf
              /\ Sup(T, a.pkt.src, a.pkt.d) < Sup(S, a.pkt.src, a.pkt.d), "Refund:burn")
+    \* the refund of a voucher that came over a third channel: moved from the forward escrow to the refund escrow
+    /\ WitIf(a.a \in {"Ack", "Timeout"} /\ Fwd(S, a.pkt) /\ Id(a.pkt) \in T.refd /\ T.inf \subseteq S.inf /\ Len(a.pkt.d.t) >= 1
+             /\ Bal(T, a.pkt.src, Esc(a.pkt.L), a.pkt.d) < Bal(S, a.pkt.src, Esc(a.pkt.L), a.pkt.d)
+             /\ Sup(T, a.pkt.src, a.pkt.d) = Sup(S, a.pkt.src, a.pkt.d), "Refund:move-voucher")
+    /\ WitIf(a.a = "Timeout" /\ Fwd(S, a.pkt) /\ Id(a.pkt) \in T.refd /\ T.inf \subseteq S.inf /\ Len(a.pkt.d.t) >= 1
+             /\ Bal(T, a.pkt.src, Esc(a.pkt.L), a.pkt.d) < Bal(S, a.pkt.src, Esc(a.pkt.L), a.pkt.d)
+             /\ Sup(T, a.pkt.src, a.pkt.d) = Sup(S, a.pkt.src, a.pkt.d), "Refund:move-voucher-timeout")
+    /\ WitIf(a.a \in {"Ack", "Timeout"} /\ Fwd(S, a.pkt) /\ Id(a.pkt) \in T.refd /\ T.inf \subseteq S.inf /\ Len(a.pkt.d.t) >= 1
+             /\ a.pkt.src = "C" /\ Bal(T, "C", Esc(a.pkt.L), a.pkt.d) < Bal(S, "C", Esc(a.pkt.L), a.pkt.d)
+             /\ Sup(T, "C", a.pkt.d) = Sup(S, "C", a.pkt.d), "Refund:move-voucher-onC")
+    /\ WitIf(a.a = "Recv" /\ T.pk # S.pk /\ \E P \in T.pk \ S.pk : ThirdChannel(P.src, P, a.pkt), "Forward:third-channel")
+    /\ WitIf(a.a = "Transfer" /\ Len(a.memo) >= 1 /\ a.memo[1].L = "BX", "Route:x")
+    /\ WitIf(a.a = "Transfer" /\ Len(a.memo) = 2 /\ a.memo[2].L = "BC", "Route:xb")
     /\ WitIf(a.a \in {"Ack", "Timeout"} /\ Fwd(S, a.pkt) /\ Id(a.pkt) \in T.refd /\ T.inf \subseteq S.inf
              /\ Sup(T, a.pkt.src, a.pkt.d) > Sup(S, a.pkt.src, a.pkt.d), "Refund:mint")
 
